@@ -40,6 +40,6 @@ def replay(path):
     f = d.get('failing_input')
     print(json.dumps(f or d['broken'], indent=1, default=str)[:3000])
     if f and f.get('oracle') == 'c20':
-        cfg = {k: f[k] for k in ('method', 'sde_type', 'noise', 'd', 'm', 'batch', 'seed', 'dt', 'row', 'kind')}
+        cfg = {k: f[k] for k in ('method', 'sde_type', 'noise', 'd', 'm', 'batch', 'seed', 'dt', 'row', 'kind', 'poison', 'grad_free') if k in f}
         print('now:', osde.c20_case(**cfg))
     return 1
